@@ -60,8 +60,9 @@ func (i *inspection) hasDep(typ, id string) bool {
 	return false
 }
 
-var fieldRef = regexp.MustCompile(`\b(?:contact\.)?fields\.([a-z_0-9]+)`)
-var globalRef = regexp.MustCompile(`\bglobals\.([a-z_0-9]+)`)
+// references as the generator writes them: plain paths, paths behind a parenthesised prefix, and quoted keys
+var fieldRef = regexp.MustCompile(`\b(?:contact\.)?fields\)?(?:\.|\[")([a-z_0-9]+)`)
+var globalRef = regexp.MustCompile(`\bglobals\)?(?:\.|\[")([a-z_0-9]+)`)
 
 // the waiting step of every resume: (run uuid, step uuid)
 type waitPoint struct {
@@ -284,6 +285,14 @@ func finish(r *scen.Runner) *harn.Failure {
 			}
 			for _, a := range actionsOf[string(st.NodeUUID())] {
 				text := string(a)
+				// a set_run_result category is fixed (localizable) text, never evaluated: what looks like a reference in it is none
+				var plain map[string]json.RawMessage
+				if json.Unmarshal(a, &plain) == nil && string(plain["type"]) == `"set_run_result"` {
+					delete(plain, "category")
+					if b, err := json.Marshal(plain); err == nil {
+						text = string(b)
+					}
+				}
 				for _, m := range fieldRef.FindAllStringSubmatch(text, -1) {
 					if !insp.hasDep("field", m[1]) {
 						return harn.Failf("template-dependency-listed", "flow %q executed action %s which references field %q, not among the dependencies", f.Name(), text, m[1])
